@@ -12,6 +12,8 @@
 #include <hgraph/runtime/push_source_node.h>
 #include <hgraph/runtime/runtime.h>
 #include <hgraph/types/graph_wiring.h>
+#include <hgraph/types/static_node.h>
+#include <hgraph/types/subgraph_wiring.h>
 #include <hgraph/types/metadata/type_registry.h>
 #include <hgraph/types/value/value.h>
 #include <hgraph/types/value/value_builder.h>
@@ -52,6 +54,34 @@ namespace
     struct FbSourceTag {};
     struct FbSinkTag {};
 
+    // ---- sub-graph wrappers around a SINK (kinds 6, 7): nested_<SinkAndOutG>(w, x) and try_except_<SinkG>(w, x).
+    // The wrapper node has an output, so it goes through the intern table although its body has a side effect.
+    std::int64_t g_sink_body_runs = 0;
+    struct CountingSink
+    {
+        static constexpr auto name = "hgv_counting_sink";
+        static void           eval(In<"x", TS<Int>> x) { static_cast<void>(x); ++g_sink_body_runs; }
+    };
+    struct PlusOne
+    {
+        static constexpr auto name = "hgv_plus_one";
+        static void           eval(In<"x", TS<Int>> x, Out<TS<Int>> out) { out.set(x.value() + 1); }
+    };
+    struct SinkG
+    {
+        static constexpr auto name = "hgv_sink_g";
+        static void           compose(Wiring &w, Port<TS<Int>> x) { wire<CountingSink>(w, x); }
+    };
+    struct SinkAndOutG
+    {
+        static constexpr auto name = "hgv_sink_and_out_g";
+        static Port<TS<Int>>  compose(Wiring &w, Port<TS<Int>> x)
+        {
+            wire<CountingSink>(w, x);
+            return wire<PlusOne>(w, x);
+        }
+    };
+
     // ---- time-series types: base 1 = TS<int64>, 2 = TS<double>; dims = fixed TSL sizes, outermost first
     struct Ty
     {
@@ -90,6 +120,7 @@ namespace
     {
         int                      kind{0};  // 0 peered, 1 delayed, 2 null, 3 structural
         int                      okind{0}; // peered: 0 ordinary output, 1 hidden error output, 2 recordable state
+        std::int64_t             opt{0};   // error output: bit 0 capture_values, bits 1.. extra trace_back_depth
         std::int64_t             ref{0};
         std::vector<std::size_t> path;
         std::vector<Src>         children;
@@ -111,6 +142,7 @@ namespace
         int                       out_ty{0};
         bool                      has_sc{false};
         std::vector<std::int64_t> sc;
+        int                       fsc{-1};   // extra FLOAT scalar field: 0 -> 0.0, 1 -> -0.0, 2 -> 1.5, 3 -> -1.5 (-1: none)
         std::vector<Input>        ins;
         std::int64_t              a{0}, b{0};  // bind: ph=a ref=b ; dep: node=a depends_on=b ; placeholder: a=type
         std::vector<std::size_t>  path;
@@ -120,7 +152,12 @@ namespace
     {
         Src s;
         s.kind = (int)l.at(p++);
-        if (s.kind == 6 || s.kind == 7) { s.okind = s.kind - 5; s.kind = 0; }   // peered, hidden error / recordable-state output
+        if (s.kind == 6)   // hidden error output of node ref, activated with ErrorCaptureOptions code opt
+        {
+            s.okind = 1; s.kind = 0; s.ref = l.at(p++); s.opt = l.at(p++);
+            return s;
+        }
+        if (s.kind == 7) { s.okind = 2; s.kind = 0; }
         if (s.kind == 0 || s.kind == 1)
         {
             s.ref          = l.at(p++);
@@ -185,6 +222,7 @@ namespace
                     s.ins.push_back(std::move(in));
                     break;
                 }
+                case 14: p.stmts.at(l.at(1)).fsc = (int)l.at(2); break;
                 case 4: { Stmt s; s.tag = 4; s.label = l.at(1); s.a = l.at(2); p.stmts[s.label] = s; break; }
                 case 5:
                 {
@@ -222,6 +260,7 @@ namespace
 
     struct NodeRt  // run-time behaviour shared with callbacks
     {
+        int                       fsc{-1};
         std::int64_t              label{0}, def{0};
         int                       kind{0}, out_ty{0};
         std::vector<std::int64_t> sc;
@@ -244,6 +283,8 @@ namespace
     {
         std::int64_t v = n.def;
         for (std::size_t i = 0; i < n.sc.size(); ++i) { v += (std::int64_t)(i + 1) * n.sc[i]; }
+        static const double fvals[] = {0.0, -0.0, 1.5, -1.5};
+        if (n.fsc >= 0) { v += (1.0 / fvals[n.fsc & 3]) > 0 ? 40 + n.fsc / 2 : 90 + n.fsc / 2; }   // the SIGN of 1/f: 0.0 and -0.0 differ
         return v;
     }
 
@@ -283,14 +324,18 @@ namespace
 
     Value make_scalars(const Stmt &s)
     {
-        if (!s.has_sc) { return Value{}; }
+        if (!s.has_sc && s.fsc < 0) { return Value{}; }
         auto                                                        &r = TypeRegistry::instance();
         std::vector<std::pair<std::string, const ValueTypeMetaData *>> fields;
-        for (std::size_t i = 0; i < s.sc.size(); ++i) { fields.emplace_back("s" + std::to_string(i), metas().int_meta); }
+        const std::size_t n = s.has_sc ? s.sc.size() : 0;
+        for (std::size_t i = 0; i < n; ++i) { fields.emplace_back("s" + std::to_string(i), metas().int_meta); }
+        if (s.fsc >= 0) { fields.emplace_back("f", metas().float_meta); }
         const auto   *schema  = r.un_named_bundle(fields);
         const auto    binding = ValuePlanFactory::instance().type_for(schema);
         BundleBuilder b{binding};
-        for (std::size_t i = 0; i < s.sc.size(); ++i) { b.set(i, Value{s.sc[i]}); }
+        for (std::size_t i = 0; i < n; ++i) { b.set(i, Value{s.sc[i]}); }
+        static const double fvals[] = {0.0, -0.0, 1.5, -1.5};
+        if (s.fsc >= 0) { b.set(n, Value{fvals[s.fsc & 3]}); }
         return b.build();
     }
 
@@ -343,7 +388,8 @@ namespace
                     {
                         // exception_time_series(port): activate error capture on the producing instance (amended in
                         // place), then address its hidden error output
-                        w.activate_error_capture(it->second.peered_node(), node_error_ts_meta(), {});
+                        w.activate_error_capture(it->second.peered_node(), node_error_ts_meta(),
+                                                 ErrorCaptureOptions{.trace_back_depth = (std::size_t)(1 + (s.opt >> 1)), .capture_values = (s.opt & 1) != 0});
                         return graph_wiring_detail::special_output_source(it->second, GraphEdgeSourceKind::ErrorOutput,
                                                                           "exception_time_series");
                     }
@@ -366,12 +412,30 @@ namespace
             }
         }
 
+        void wrapper_stmt(const Stmt &s)
+        {
+            const Src &src = s.ins.at(0).src;
+            auto       it  = ports.find(src.ref);
+            if (src.kind != 0 || it == ports.end()) { throw Inadmissible("wrapper input"); }
+            Port<TS<Int>> x{w, it->second};
+            // kind 8: a STATIC node (wire<PlusOne>): all its instances share one runtime node type per configuration
+            WiringPortRef out = s.kind == 6 ? nested_<SinkAndOutG>(w, x).erased()
+                                : s.kind == 7 ? try_except_<SinkG>(w, x).erased() : wire<PlusOne>(w, x).erased();
+            const WiringInstance *inst = out.peered_node();
+            auto [c, fresh]            = creator.try_emplace(inst, s.label);
+            rep[s.label]               = c->second;
+            if (fresh) { const_cast<WiringInstance *>(inst)->builder.label("L" + std::to_string(s.label)); }
+            ports.emplace(s.label, std::move(out));
+            port_ty[s.label] = Ty{s.kind == 7 ? 3 : 1, {}};
+        }
+
         void node_stmt(const Stmt &s)
         {
+            if (s.kind == 6 || s.kind == 7 || s.kind == 8) { wrapper_stmt(s); return; }
             std::vector<WiringInputRef> inputs;
             std::vector<WiringPortRef>  sources;
             auto                        rt = std::make_shared<NodeRt>();
-            rt->label = s.label; rt->def = s.def; rt->kind = s.kind; rt->out_ty = s.out_ty; rt->sc = s.sc;
+            rt->label = s.label; rt->def = s.def; rt->kind = s.kind; rt->out_ty = s.out_ty; rt->sc = s.sc; rt->fsc = s.fsc;
             for (const Input &in : s.ins)
             {
                 rt->in_ty.push_back(type_of_src(in.src));
@@ -719,7 +783,14 @@ namespace
         {
             const std::string lbl{nb.label()};
             const auto       *schema = nb.type().schema();
-            if (lbl.size() > 1 && lbl[0] == 'L' && schema != nullptr && schema->captures_errors) { capt.push_back(std::stoll(lbl.substr(1))); }
+            if (lbl.size() > 1 && lbl[0] == 'L' && schema != nullptr && schema->captures_errors &&
+                (prog.stmts.at(std::stoll(lbl.substr(1))).kind <= 2 || prog.stmts.at(std::stoll(lbl.substr(1))).kind == 8))   // not the wrappers (try_except_ always captures)
+            {
+                capt.push_back(std::stoll(lbl.substr(1)));
+                // the capture options in force on the compiled node type (line 31: creator, trace depth, capture_values)
+                out.line({31, k, std::stoll(lbl.substr(1)), (std::int64_t)schema->error_capture.trace_back_depth,
+                          (std::int64_t)schema->error_capture.capture_values});
+            }
         }
         std::sort(capt.begin() + 2, capt.end());
         out.line(capt);
@@ -754,6 +825,7 @@ namespace
         if (!prog.exec || has_push) { return; }
         try
         {
+            g_sink_body_runs = 0;
             GraphExecutorBuilder eb;
             eb.graph_builder(std::move(*gb)).start_time(dt(1)).end_time(dt(prog.end_time));
             GraphExecutorValue executor = eb.make_executor();
@@ -777,6 +849,7 @@ namespace
             }
             out.line(l);
         }
+        out.line({32, k, g_sink_body_runs});   // how often the sink bodies inside nested_/try_except_ wrappers ran
         Line ev{25, k};
         for (const auto &[label, n] : wr.run->evals) { ev.push_back(label); ev.push_back(n); }
         out.line(ev);
